@@ -1,0 +1,20 @@
+//go:build verif
+
+package util
+
+// Lemma functions for /verif/govc (compiled only with -tags verif, never called).
+
+// lemmaInterpMonotone: the step interpolation evaluated at two inputs (C07). The contract relates the two
+// results through the ghost segment markers the function records.
+func lemmaInterpMonotone(steps map[int]float64, t1 float64, t2 float64) (r1 float64, r2 float64) {
+	r1 = CalculateInterpolatedCurveValue(steps, InterpolationTypeLinear, t1)
+	r2 = CalculateInterpolatedCurveValue(steps, InterpolationTypeLinear, t2)
+	return r1, r2
+}
+
+// lemmaFindClosestMonotone: the nearest supported value does not decrease when the request grows (C07).
+func lemmaFindClosestMonotone(arr []int, t1 int, t2 int) (r1 int, r2 int) {
+	r1 = FindClosest(t1, arr)
+	r2 = FindClosest(t2, arr)
+	return r1, r2
+}
